@@ -99,7 +99,21 @@ func (s *Spec) OutDir() string {
 }
 
 // Exec runs bin according to spec.  keep=false cleans the module first.
+// Exec runs gocc once.  The wall-clock watchdog only guards the harness against a
+// process that hangs outside the tick seam; the time a healthy run needs depends
+// on what else the machine is doing, so a run that hits the watchdog is made
+// once more with eight times the allowance before it counts as not terminating.
 func (w *Worker) Exec(bin string, s *Spec, timeout time.Duration) (*Result, error) {
+	r, err := w.exec1(bin, s, timeout)
+	if err == nil && r.TimedOut {
+		if r2, err2 := w.exec1(bin, s, 8*timeout); err2 == nil {
+			return r2, nil
+		}
+	}
+	return r, err
+}
+
+func (w *Worker) exec1(bin string, s *Spec, timeout time.Duration) (*Result, error) {
 	if s.Pre != "keep" {
 		if err := w.Clean(); err != nil {
 			return nil, err
